@@ -304,6 +304,14 @@ def const(node, env=None):
                  'bool': bool, 'pow': pow, 'abs': abs}
         if fn in table:
             return table[fn](*args)
+    if isinstance(node, ast.Call) and norm(node.func) in ('pack', 'struct.pack', 'unpack', 'struct.unpack') and not node.keywords:
+        import struct as _struct
+        args = [const(a, env) for a in node.args]
+        if norm(node.func).endswith('unpack'):
+            return _struct.unpack(args[0], bytes(args[1]))
+        return _struct.pack(*args)
+    if isinstance(node, ast.Call) and norm(node.func) == 'memoryview' and len(node.args) == 1:
+        return const(node.args[0], env)
     if isinstance(node, ast.Call) and isinstance(node.func, ast.Attribute) and node.func.attr == 'fromhex' \
             and norm(node.func.value) in ('bytearray', 'bytes'):
         return bytearray.fromhex(const(node.args[0], env))
@@ -445,12 +453,12 @@ def assign_nodes(cfg, var):
     return out
 
 
-def lower_bound_at(cfg, var, target, extra_guards=(), consts=None, default=None):
+def lower_bound_at(cfg, var, target, extra_guards=(), consts=None, default=None, kills=()):
     """Best lower bound of integer `var` proven on every path to `target`.  The guards whose bound is
     >= b are taken together: target must be reachable only through one of their passing edges, and
     after every assignment to var one of them must be passed again before target."""
     guards = [(e, n) for e, n in list(var_facts(cfg, var, consts)) + list(extra_guards) if isinstance(n, int)]
-    assigns = assign_nodes(cfg, var)
+    assigns = assign_nodes(cfg, var) + list(kills)
     reach_all = cfg.reachable()
     best = default
     for b in sorted(set(n for e, n in guards)):
